@@ -13,14 +13,14 @@ use serde::{Deserialize, Serialize};
 
 #[derive(Clone, Debug, Hash, Serialize, Deserialize)]
 pub struct Case {
-    /// 0: Piecewise<Poly0>, 1: Piecewise<Poly3>, 2: Piecewise<Poly8>, 3: Piecewise<PolyN>
+    /// 0: Piecewise<Poly0>, 1: Piecewise<Poly3>, 2: Piecewise<Poly8>, 3: Piecewise<PolyN>, 4: Piecewise<Piecewise<Poly1>>
     pub ty: u8,
     pub bytes: Vec<u8>,
 }
 
 pub struct C19;
 
-pub const TY_NAMES: [&str; 4] = ["Piecewise<Poly0>", "Piecewise<Poly3>", "Piecewise<Poly8>", "Piecewise<PolyN>"];
+pub const TY_NAMES: [&str; 5] = ["Piecewise<Poly0>", "Piecewise<Poly3>", "Piecewise<Poly8>", "Piecewise<PolyN>", "Piecewise<Piecewise<Poly1>>"];
 
 /// encode a list of ends the way `Vec<f64>::arbitrary` reads it: a continuation
 /// byte (odd = one more element) then 8 little-endian bytes, closed by an even byte
@@ -141,7 +141,7 @@ impl Prop for C19 {
         "C19"
     }
     fn rule(&self) -> String {
-        "case = (T in {Poly0, Poly3, Poly8, PolyN}; byte string). Byte strings are (a) CONSTRUCTED with the wire layout Vec<f64>::arbitrary reads (continuation byte, 8 little-endian bytes per element) so that they decode to chosen end lists — normal random ends in any order incl. descending, many duplicates, empty list, lists containing NaN / ±inf / subnormal / ±0 ends — followed by random piece bytes, and truncated at a random position (so the input runs out while ends or pieces are read), or (b) uniformly random bytes of length 0..200. Oracle: the call never panics; Err is always acceptable; Ok(pw) must have >=1 segment, every end is_normal(), ends non-decreasing; then a tag copy (same ends, Poly0(i)) is evaluated over its whole alphabet incl. 5 NaN payloads directly, through one PiecewiseEvaluator (alphabet ascending, then descending, then interleaved extremes) and through evaluate_v (ascending): no panic, and for non-NaN arguments the same segment index from all three and from the selection model; the original value is evaluated the same three ways for panic-freedom. Non-trivial: Ok with >=2 segments.".into()
+        "case = (T in {Poly0, Poly3, Poly8, PolyN, Piecewise<Poly1> (a piece type whose own Arbitrary can fail)}; byte string). Byte strings are (a) CONSTRUCTED with the wire layout Vec<f64>::arbitrary reads (continuation byte, 8 little-endian bytes per element) so that they decode to chosen end lists — normal random ends in any order incl. descending, many duplicates, empty list, lists containing NaN / ±inf / subnormal / ±0 ends — followed by random piece bytes, and truncated at a random position (so the input runs out while ends or pieces are read), or (b) uniformly random bytes of length 0..200. Oracle: the call never panics; Err is always acceptable; Ok(pw) must have >=1 segment, every end is_normal(), ends non-decreasing; then a tag copy (same ends, Poly0(i)) is evaluated over its whole alphabet incl. 5 NaN payloads directly, through one PiecewiseEvaluator (alphabet ascending, then descending, then interleaved extremes) and through evaluate_v (ascending): no panic, and for non-NaN arguments the same segment index from all three and from the selection model; the original value is evaluated the same three ways for panic-freedom. Non-trivial: Ok with >=2 segments.".into()
     }
     fn cases(&self, tier: Tier) -> u64 {
         tier.pick(1_000_000, 10_000_000)
@@ -189,10 +189,10 @@ impl Prop for C19 {
                 b
             });
         let bytes = prop_oneof![4 => structured, 1 => vec(any::<u8>(), 0..200)];
-        (0u8..4, bytes).prop_map(|(ty, bytes)| Case { ty, bytes }).boxed()
+        (0u8..5, bytes).prop_map(|(ty, bytes)| Case { ty, bytes }).boxed()
     }
     fn check(&self, c: &Case, ctx: &mut Ctx) -> Outcome {
-        let ty = c.ty % 4;
+        let ty = c.ty % 5;
         ctx.label(TY_NAMES[ty as usize]);
         if c.bytes.is_empty() {
             ctx.label("empty input");
@@ -201,7 +201,9 @@ impl Prop for C19 {
             0 => check_ty::<Poly0>(&c.bytes, ctx, TY_NAMES[0]),
             1 => check_ty::<Poly3>(&c.bytes, ctx, TY_NAMES[1]),
             2 => check_ty::<Poly8>(&c.bytes, ctx, TY_NAMES[2]),
-            _ => check_ty::<PolyN>(&c.bytes, ctx, TY_NAMES[3]),
+            3 => check_ty::<PolyN>(&c.bytes, ctx, TY_NAMES[3]),
+            // a fallible piece type: the pieces are themselves Arbitrary piecewise functions
+            _ => check_ty::<Piecewise<Poly1>>(&c.bytes, ctx, TY_NAMES[4]),
         }
     }
     fn from_bytes(&self, u: &mut Unstructured) -> Option<Case> {
@@ -209,7 +211,7 @@ impl Prop for C19 {
         let ty: u8 = u.arbitrary().ok()?;
         let n = u.len();
         let rest = u.bytes(n).ok()?.to_vec();
-        Some(Case { ty: ty % 4, bytes: rest })
+        Some(Case { ty: ty % 5, bytes: rest })
     }
     fn size(&self, c: &Case) -> usize {
         c.bytes.len()
